@@ -14,6 +14,7 @@ TEXT = ("Static lock-discipline analysis over the MIR of every function and clos
         "escapes (returned / stored), so the held-set analysis is complete. Decides the 'never blocks forever on "
         "libmelda's own locks' clause for one client thread and any pool size; does not decide loop termination "
         "or data-dependent panics.")
+TECHNIQUE = 'static analysis over rustc MIR: held-guard dataflow with receiver-sensitive lock identity, transitive acquisition summaries over the call graph (closures, dyn Adapter fan-out), lock-order cycles, parallel-region read/write conflicts, guard escape'
 TRUSTED = ["rustc nightly MIR construction and callee resolution",
            "std::sync semantics: Mutex is not re-entrant, RwLock may be writer-preferring",
            "distinct &Melda parameters (self/other in meld) denote distinct replicas",
